@@ -53,6 +53,16 @@ func genC20(r *rand.Rand, w *W) [][]string {
 			}
 			ops = append(ops, []string{"set", pick(r, keys), pick(r, vals)})
 		case x < 5:
+			if r.Intn(2) == 0 { // look a key up, delete it, look it up again (and the same around set / reset)
+				k := pick(r, keys)
+				probe := func() []string {
+					return []string{"probe", k, pick(r, vals), strconv.FormatInt(r.Int63()-r.Int63(), 10),
+						strconv.FormatUint(r.Uint64(), 10), strconv.FormatBool(r.Intn(2) == 0), fbits(r.NormFloat64())}
+				}
+				ops = append(ops, []string{"set", k, pick(r, vals)}, probe(), []string{pick(r, []string{"del", "del", "del"}), k}, probe())
+				w.Count("probe-del-probe")
+				break
+			}
 			ops = append(ops, []string{"del", pick(r, keys)})
 		case x < 6 && r.Intn(3) == 0:
 			ops = append(ops, []string{"reset"})
